@@ -102,6 +102,15 @@ def multi_history(draw):
 
 
 @st.composite
+def crowded_history(draw):
+    """The shared counter already tracks more than 10^6 combinations (as after --interaction_order 2 on ~1500 columns) when two small
+    lists are sampled in turn."""
+    case = draw(multi_history())
+    case['crowd'] = 1_000_000 + draw(st.integers(1, 5000))
+    return case
+
+
+@st.composite
 def pipeline_history(draw):
     ncols = draw(st.integers(1, 12))
     names = [f'c{i}' for i in range(ncols)]
@@ -139,7 +148,9 @@ def task_history(draw):
     ncols = draw(st.integers(3, 8))
     return {'mode': 'task', 'ncols': ncols, 'm': draw(st.integers(1026, 1200)), 'k': draw(st.integers(0, 3)),
             't': draw(st.sampled_from([0, 300, 1024, 1025, 1100])), 'cap': draw(st.integers(1, ncols + 1)),
-            'label_pos': draw(st.integers(0, ncols - 1))}
+            'label_pos': draw(st.integers(0, ncols - 1)),
+            # scoring heuristic with the noise-baseline (CONTROL-*) columns added to every batch: their pairs are candidates like any other
+            'noise': draw(st.sampled_from([False, False, True]))}
 
 
 def check_task(case, rec):
@@ -159,13 +170,19 @@ def check_task(case, rec):
     rec.cls('task:batches=%d' % nb, 'task:tail-used' if int(case['t']) > 1024 else 'task:no-tail')
     tmp = tempfile.mkdtemp(prefix='c07-')
     old = os.getcwd()
-    orig_pool, orig_sample = tr.Pool, cr.prior_combinations_sample
+    orig_pool, orig_sample, orig_mrg = tr.Pool, cr.prior_combinations_sample, cr.mixed_rank_graph
     selections = []
+    evaluated = []
 
     def spy(combinations, args):
         got = orig_sample(combinations, args)
         selections.append(list(got))
         return got
+
+    def spy_mrg(*a, **k):
+        res = orig_mrg(*a, **k)
+        evaluated.append({tuple(sorted((x, y))) for x, y, _ in res.triplet_scores})
+        return res
     try:
         os.chdir(tmp)
         os.makedirs('data')
@@ -174,11 +191,17 @@ def check_task(case, rec):
             w.writerow(cols)
             for i in range(nrows):
                 w.writerow([str((i * (j + 2)) % 3) for j in range(ncols)])
-        args = stubs.make_args(task='ranking', heuristic='Constant', minibatch_size=m, subsampling=1, data_path=os.path.join(tmp, 'data'),
+        noise = bool(case.get('noise'))
+        args = stubs.make_args(task='ranking', heuristic='MI-numba-randomized' if noise else 'Constant', minibatch_size=m, subsampling=1,
+                               data_path=os.path.join(tmp, 'data'),
                                data_source='csv-raw', output_folder=os.path.join(tmp, 'out'), target_ranking_only='True',
-                               combination_number_upper_bound=int(case['cap']), include_cardinality_in_feature_names='False')
+                               combination_number_upper_bound=int(case['cap']), include_cardinality_in_feature_names='False',
+                               include_noise_baseline_features='True' if noise else 'False')
+        if noise:
+            rec.cls('task:noise-baseline-columns')
         tr.Pool = lambda n=None: stubs.InlinePool()
         cr.prior_combinations_sample = spy
+        cr.mixed_rank_graph = spy_mrg
         stubs.reset_globals()
         try:
             tr.outrank_task_conduct_ranking(args)
@@ -187,12 +210,18 @@ def check_task(case, rec):
         path = os.path.join(tmp, 'out', 'combination_estimation_counts.json')
         reported = json.load(open(path)) if os.path.exists(path) else None
     finally:
-        tr.Pool, cr.prior_combinations_sample = orig_pool, orig_sample
+        tr.Pool, cr.prior_combinations_sample, cr.mixed_rank_graph = orig_pool, orig_sample, orig_mrg
         os.chdir(old)
         shutil.rmtree(tmp, ignore_errors=True)
     if len(selections) != nb:
         # how many batches a file yields is C08's statement; the clause below needs the selections of every processed batch only
         rec.cls('task:batch-count-differs-from-model')
+    for bi, (sel, ev) in enumerate(zip(selections, evaluated)):
+        if len(ev) > int(case['cap']) or ev != {tuple(sorted(g)) for g in sel}:
+            raise Violation(f'batch {bi + 1}: {len(ev)} distinct pairs were evaluated, the sampler selected {len(sel)} under cap {case["cap"]}; '
+                            f'evaluated but not selected: {sorted(ev - {tuple(sorted(g)) for g in sel})[:4]}', kind='C07/size')
+    if case.get('noise'):
+        cands = sorted({g for sel in selections for g in sel} | set(cands))      # the CONTROL-* pairs are candidates too
     model = Counter(g for sel in selections for g in sel)
     if nb == 0 and not selections:
         return
@@ -204,8 +233,13 @@ def check_task(case, rec):
                             f'{len(selections)} sampled batches (k={case["k"]} full batches of {m} rows, tail {case["t"]}, cap {case["cap"]}); '
                             f'reported={reported}', kind='C07/counter')
     extra = set(reported) - {str(c) for c in cands}
+    if case.get('noise'):
+        extra = {e for e in extra if 'CONTROL-' not in e}      # control pairs that were never selected are listed with count 0
     if extra:
         raise Violation(f'reported counts hold foreign keys {sorted(extra)[:3]}', kind='C07/counter')
+    if case.get('noise') and reported:
+        import ast
+        cands = sorted(set(cands) | {ast.literal_eval(k) for k in reported if 'CONTROL-' in k})
     counts = [model[c] for c in cands]
     if selections and max(counts) - min(counts) > 1:
         raise Violation(f'evaluation counts differ by more than one after {len(selections)} batches: {sorted(counts)}', kind='C07/fairness')
@@ -293,10 +327,13 @@ def check_history(cands, steps, cols=None, h3mr=False, ncpus=1, rounds=0):
                 raise Violation(f'{where}: reported count of {c} is {impl.get(c, 0)}, selected in {model[c]} batches', kind='C07/counter')
 
 
-def check_multi(lists, steps):
+def check_multi(lists, steps, crowd=0):
     stubs.reset_globals()
     models = [Counter() for _ in lists]
     for si, (li, cap) in enumerate(steps):
+        if crowd and si == len(steps) // 2:
+            for i in range(int(crowd)):
+                cr.GLOBAL_PRIOR_COMB_COUNTS[('bulk', i)] = 1       # a huge other list was sampled in between (its combinations are tracked too)
         cands = lists[li]
         model = models[li]
         before = {c: model[c] for c in cands}
@@ -320,7 +357,7 @@ def check_multi(lists, steps):
         if max(counts) - min(counts) > 1:
             raise Violation(f'{where}: evaluation counts of one stable list differ by more than one: {sorted(counts)}',
                             kind='C07/fairness')
-        impl = dict(cr.GLOBAL_PRIOR_COMB_COUNTS)
+        impl = cr.GLOBAL_PRIOR_COMB_COUNTS
         for mi, (cl, mdl) in enumerate(zip(lists, models)):
             for c in cl:
                 if impl.get(c, 0) != mdl[c]:
@@ -482,7 +519,13 @@ def oracle(case, rec):
         used = {li for li, _ in steps}
         rec.nt(len(used) >= 2 and len(steps) >= 3 and any(cap < len(lists[li]) for li, cap in steps), key=case)
         rec.cls('multi-list')
-        check_multi(lists, steps)
+        if case.get('crowd'):
+            rec.cls('counter-tracks>10^6-combinations')
+        try:
+            check_multi(lists, steps, crowd=int(case.get('crowd') or 0))
+        finally:
+            if case.get('crowd'):
+                stubs.reset_globals()
         return
     if case['mode'] == 'task':
         rec.nt(int(case['k']) + (int(case['t']) > 1024) >= 2 and int(case['cap']) < int(case['ncols']), key=case)
@@ -528,7 +571,7 @@ def oracle(case, rec):
     check_history(cands, steps, cols, rounds=int(case.get('rounds') or 0))
 
 
-KINDS = ['C07/history', 'C07/task', 'C07/exhaustive', 'C07/size', 'C07/distinct', 'C07/foreign', 'C07/least-evaluated', 'C07/fairness', 'C07/counter']
+KINDS = ['C07/history', 'C07/task', 'C07/crowded-counter', 'C07/exhaustive', 'C07/size', 'C07/distinct', 'C07/foreign', 'C07/least-evaluated', 'C07/fairness', 'C07/counter']
 ORACLES = {k: oracle for k in KINDS}
 
 
@@ -568,5 +611,6 @@ def run(ctx):
                                                 pipeline3mr_history()), oracle, quick=900, thorough=180000,
                quick_shards=6),
         Clause('C07/task', task_history, oracle, quick=24, thorough=1200, quick_shards=8, thorough_shards=16),
+        Clause('C07/crowded-counter', crowded_history, oracle, quick=2, thorough=32, quick_shards=2, thorough_shards=8),
     ]
     drive(ctx, clauses)
